@@ -1290,3 +1290,110 @@ Proof.
   intros Hr HW Hns HR. apply (lifecycle_props st).
   eapply inv_erun; [exact HW | exact Hns | apply inv_init; exact Hr | exact HR].
 Qed.
+
+(* ================================================================== C21: the hand-over step *)
+From Coq Require Import Sorted Permutation.
+
+Lemma proc_le_total st x y : proc_le st x y = false -> proc_le st y x = true.
+Proof.
+  unfold proc_le. intros H. apply orb_false_iff in H. destruct H as [H1 H2].
+  apply N.ltb_ge in H1. apply andb_false_iff in H2.
+  destruct (height st (fst y) <? height st (fst x)) eqn:E; [reflexivity|]. apply N.ltb_ge in E.
+  cbn [orb]. assert (height st (fst y) = height st (fst x)) as Heq by lia.
+  rewrite Heq, N.eqb_refl. cbn [andb]. destruct H2 as [H2|H2].
+  - rewrite Heq, N.eqb_refl in H2. discriminate.
+  - apply N.leb_le. apply N.leb_gt in H2. lia.
+Qed.
+
+Lemma proc_le_trans st x y z : proc_le st x y = true -> proc_le st y z = true -> proc_le st x z = true.
+Proof.
+  unfold proc_le. rewrite !orb_true_iff, !andb_true_iff, !N.ltb_lt, !N.eqb_eq, !N.leb_le.
+  intros [A|[A1 A2]] [B|[B1 B2]]; [left; lia | left; lia | left; lia | right; split; lia].
+Qed.
+
+Lemma insert_sorted_In st x l y : In y (insert_sorted st x l) <-> y = x \/ In y l.
+Proof.
+  induction l as [|z r IH]; cbn [insert_sorted In]; [intuition congruence|].
+  destruct (proc_le st x z); cbn [In]; [intuition congruence|]. rewrite IH. intuition congruence.
+Qed.
+
+Lemma sort_processing_In st l y : In y (sort_processing st l) <-> In y l.
+Proof.
+  unfold sort_processing. induction l as [|z r IH]; cbn [fold_right In]; [tauto|].
+  rewrite insert_sorted_In, IH. intuition congruence.
+Qed.
+
+Lemma insert_sorted_sorted st x l :
+  StronglySorted (fun a b => proc_le st a b = true) l ->
+  StronglySorted (fun a b => proc_le st a b = true) (insert_sorted st x l).
+Proof.
+  induction 1 as [|z r Hr IH Hz]; cbn [insert_sorted].
+  - constructor; constructor.
+  - destruct (proc_le st x z) eqn:E.
+    + constructor; [constructor; assumption|]. constructor; [exact E|].
+      eapply Forall_impl; [|exact Hz]. intros a Ha. eapply proc_le_trans; eauto.
+    + constructor; [exact IH|]. apply Forall_forall. intros a Ha. apply insert_sorted_In in Ha.
+      destruct Ha as [->|Ha]; [apply proc_le_total; exact E|]. rewrite Forall_forall in Hz. auto.
+Qed.
+
+Lemma sort_processing_sorted st l : StronglySorted (fun a b => proc_le st a b = true) (sort_processing st l).
+Proof.
+  unfold sort_processing. induction l as [|z r IH]; cbn [fold_right]; [constructor|].
+  apply insert_sorted_sorted. exact IH.
+Qed.
+
+(* in a sorted list, an element of strictly smaller height comes earlier *)
+Lemma sorted_split_before st D x R y :
+  StronglySorted (fun a b => proc_le st a b = true) (D ++ x :: R) ->
+  In y (D ++ x :: R) -> height st (fst y) < height st (fst x) -> In y D.
+Proof.
+  induction D as [|d D IH]; cbn [app]; intros Hs Hin Hlt.
+  - exfalso. inversion Hs as [|? ? _ Hall]; subst. destruct Hin as [<-|Hin]; [lia|].
+    rewrite Forall_forall in Hall. specialize (Hall _ Hin). unfold proc_le in Hall.
+    rewrite orb_true_iff, andb_true_iff, N.ltb_lt, N.eqb_eq in Hall. lia.
+  - destruct Hin as [<-|Hin]; [left; reflexivity|]. right. inversion Hs; subst. apply IH; assumption.
+Qed.
+
+(* goodness of a processing block: it and all its processing ancestors, up to the last
+   accepted block, are valid *)
+Inductive good (es : estate) : N -> Prop :=
+| good_root b : hasK b (e_proc es) = true -> e_invalid es b = false -> e_parent es b = e_last es -> good es b
+| good_step b : hasK b (e_proc es) = true -> e_invalid es b = false ->
+                hasK (e_parent es b) (e_proc es) = true -> good es (e_parent es b) -> good es b.
+
+Definition frame (st0 st : state) : Prop :=
+  s_blocks st = s_blocks st0 /\ s_verified st = s_verified st0 /\ s_acc_id st = s_acc_id st0 /\
+  s_dih st = s_dih st0 /\ s_dhi st = s_dhi st0 /\ s_ready st = s_ready st0 /\ s_unres st = s_unres st0 /\
+  s_last st = s_last st0 /\ s_lastproc st = s_lastproc st0 /\ s_queue st = s_queue st0 /\ s_acc_h st = s_acc_h st0 /\
+  s_parsed st = s_parsed st0 /\ s_pref st = s_pref st0 /\
+  (forall h, o_id (obj_of st h) = o_id (obj_of st0 h)) /\
+  (forall h, o_accepted (obj_of st h) = o_accepted (obj_of st0 h)).
+
+Lemma frame_refl st : frame st st.
+Proof. unfold frame. repeat split; reflexivity. Qed.
+
+Lemma frame_mark_verified st0 st h : frame st0 st -> frame st0 (mark_verified h st).
+Proof.
+  unfold frame. intros (A1 & A2 & A3 & A4 & A5 & A6 & A7 & A8 & A9 & A10 & A11 & A12 & A13 & A14 & A15).
+  repeat split; try assumption.
+  - intros x. rewrite oid_mark_verified. apply A14.
+  - intros x. rewrite <- A15. unfold mark_verified, obj_of. cbn [s_objs set_objs]. rewrite nthN_setN.
+    destruct (h =? x) eqn:E; [|reflexivity]. apply N.eqb_eq in E. subst x. destruct (nthN (s_objs st) h); reflexivity.
+Qed.
+
+Lemma frame_get_block st0 st b : frame st0 st -> get_block st b = get_block st0 b.
+Proof.
+  unfold frame. intros (A1 & A2 & A3 & A4 & A5 & _). unfold get_block, disk_get. rewrite A2, A3, A4, A5. reflexivity.
+Qed.
+
+Lemma overified_mark_verified st h x :
+  o_verified (obj_of (mark_verified h st) x) = if (h =? x) && (x <? lenN (s_objs st)) then true else o_verified (obj_of st x).
+Proof.
+  unfold mark_verified, obj_of. cbn [s_objs set_objs]. rewrite nthN_setN.
+  destruct (h =? x) eqn:E; [|reflexivity]. apply N.eqb_eq in E. subst x. cbn [andb].
+  destruct (nthN (s_objs st) h) eqn:En.
+  - apply nthN_some_lt in En. apply N.ltb_lt in En. rewrite En. reflexivity.
+  - destruct (h <? lenN (s_objs st)) eqn:El; [|reflexivity]. apply N.ltb_lt in El.
+    destruct (nthN_lt_some _ _ El) as [o Ho]. congruence.
+Qed.
+
